@@ -45,7 +45,7 @@ var c13Features = []string{
 }
 
 func (c13) Thresholds(tier string) map[string]int64 {
-	th := map[string]int64{"lines": 50000, "attributes-checked": 80000, "through-a-script": 3000, "text-for-attribute-calls": 80000, "letters-supplied-by-interpolation": 2000, "same-name-metamorphic-pairs": 2500}
+	th := map[string]int64{"lines": 50000, "attributes-checked": 80000, "through-a-script": 3000, "text-for-attribute-calls": 80000, "letters-supplied-by-interpolation": 2000, "same-name-metamorphic-pairs": 2500, "marked-up-options-through-a-script": 800}
 	for _, f := range c13Features {
 		th["f:"+f] = 200
 	}
@@ -257,6 +257,14 @@ func (p c13) Run(c *core.Ctx) {
 		}
 		b.WriteString(src + "\n")
 	}
+	// the last two lines are also shown as the options of a group (DialogueOption.Line carries markup too)
+	var asOptions []gen.MarkupCase
+	if len(safe) >= 3 {
+		asOptions = safe[len(safe)-2:]
+		for _, mc := range asOptions {
+			b.WriteString("-> " + mc.Src + "\n")
+		}
+	}
 	b.WriteString("===\n")
 	script := b.String()
 	rr, err, pan := mon.Create(st, "", []string{script})
@@ -278,6 +286,22 @@ func (p c13) Run(c *core.Ctx) {
 			return
 		}
 		c.Feature("through-a-script")
+	}
+	if len(asOptions) > 0 {
+		o := rr.Next(0)
+		if o.Kind != mon.KOptions || len(o.Opts) != len(asOptions) {
+			c.Violate("a group of marked-up options was not shown: "+o.String(), map[string]any{"readers": []string{script}})
+			return
+		}
+		for i, mc := range asOptions {
+			res := &markup.ParseResult{Text: o.Opts[i].Text, Attributes: o.Opts[i].Attrs}
+			if d := checkMarkup(c, mc, res); d != "" {
+				c.Violate("a marked-up option shown by a dialogue does not carry the text and the enclosed ranges: "+d,
+					map[string]any{"readers": []string{script}, "option": mc.Src, "want_text": mc.Text, "want_attributes": describeWant(mc), "got_text": res.Text, "got_attributes": describeGot(res)})
+				return
+			}
+			c.Feature("marked-up-options-through-a-script")
+		}
 	}
 }
 
